@@ -188,7 +188,8 @@ def t_expect(ctx):
     ctx.check('C18.others_unaffected', sorted(map(str, idxs)) == ['0', '1', '2', 'o'], seen=list(map(str, idxs)))
     # ... and the temporary subscription never leaves an error behind on an event (e.g. when it is called after expect() ended)
     stale = [(idx_of.get(e.event_id), type(r.error).__name__) for e in evs for r in e.event_results.values()
-             if 'expect' in (r.handler_name or '') and r.error is not None]
+             if 'expect' in (r.handler_name or '') and r.error is not None
+             and not (isinstance(r.error, ValueError) and 'predicate boom' in str(r.error))]     # (the caller's own raising predicate is the caller's business)
     ctx.check('C18.others_unaffected', not stale, stale=stale, why='the temporary expect() handler failed on an in-flight event')
     if variant == 'override':
         # on this tree a class with an overridden event_type is registered under its class name, so expect() simply times out;
